@@ -26,6 +26,24 @@ CHECKS = {
  "C13": dict(cat="exploration", tech="metamorphic inverse-pair monitor over real library executions with harness-owned equality",
    text="16 inverse-pair laws of the statement are evaluated through Parse/Compile/Run on values of each law's stated domain (494-value universe under every law, every second of both ends of the year 1-9999 range, day boundaries, 500k (14M) random values/seconds) and the result is compared with the untouched input by the harness' canonical form AND the specification comparator. D8 (first second of year 1 fails todate|fromdate) is listed as a known finding by exact input.",
    ref="4/C13"),
+ "C05": dict(cat="exploration", tech="invariant monitor on caller-visible state: deep snapshots (incl. hidden slice capacity and code-embedded literals via verif hook) re-checked after every Next; rerun-equality monitor",
+   text="For each (program, aliased input) case the real library runs the compiled program four times; after every Next call the input, the variable value, all values emitted so far and every literal container embedded in the compiled code are re-serialised strictly (Go representation, shared structure, sentinel-filled hidden [len:cap] tails) and compared with their snapshots; reruns (same object, fresh copy after an interleaved run) must give identical canonical sequences and identical Marshal bytes. Workload: 8 aliased input shapes x 150 hand-written update/delete/add/sort/slice programs, a sweep of every name/arity reported by `builtins` over the aliased input and its aliased sub-values, 12k (300k) generated update-heavy programs, the corpus.",
+   ref="4/C05"),
+ "C20": dict(cat="exploration", tech="resource-invariant monitor on hooked interpreter state (footprint of stacks/registers/forks read at n and 8n iterations of a live iterator)",
+   text="For 70 generator forms, 60 loop forms and 600 (10k) generated parameterless definitions whose self call is in syntactic tail position, the real VM is driven to n and 8n outputs (or run with $n = n and 8n) and the interpreter footprint — backing-array high-water marks of the data, path and scope stacks and the register file, plus fork-stack capacity, read through the verif hook — must not grow by more than 16 slots; a prefix of the outputs / the result is also compared with the reference interpreter so that constant space is not bought by dropping values.",
+   ref="4/C20"),
+ "C12": dict(cat="exploration", tech="output re-parsing monitor: every output mode of the real library and command read back by independent readers (own JSON scanner + encoding/json), cross-mode equality, layout checker, YAML round trip",
+   text="Every value (exhaustive: all 5257 strings of <= 2 symbols over a 72-symbol hostile alphabet as values and keys; float bit-pattern classes; number literals; big integers; random strings to 38 KB; depth-200 and 5000-wide containers) is serialised by Marshal, tojson/tostring/@json/@text/interpolation and by the real command under 51 option sets (compact, default, --tab, --indent 0..9, colour variants with SGR stripping, raw modes); each text must be valid UTF-8, accepted by an independent scanner and encoding/json, decode to the emitted value modulo the documented lossy cases, agree across modes up to insignificant whitespace, be indented by exactly depth x unit, and survive --yaml-output | --yaml-input by value. Two go-yaml block-scalar defects are listed as known findings by signature.",
+   ref="4/C12"),
+ "C16": dict(cat="fault_enumeration", tech="differential monitor of the real command against its in-language equivalents and an independent JSON scanner/event model; truncation fault at every byte under --stream",
+   text="All observations are runs of the real cmd/gojq: -s . vs -n [inputs]; -n input/inputs over stdin and files with uniquely numbered documents against a sequential model; --stream vs tostream/fromstream and an independent event model; every byte-wise truncation of ~105 (1530) document streams under --stream (events must be a prefix, contain every event closed before the cut, then exactly one error and status 5); -R/-Rs against the harness' own line split; --arg/--argjson/--slurpfile/--rawfile/--args/--jsonargs against literal bindings (first binding wins); -f file vs text; 10 kinds of malformed documents under six modes.",
+   ref="4/C16"),
+ "C18": dict(cat="exploration", tech="differential monitor against a module-resolution/scope model and against the textually inlined program, on random module trees written to disk",
+   text="3000 (40000) random module trees (depth <= 3, diamonds, name clashes between importer/module/transitive modules, same name at several arities, data modules, name.jq vs name/name.jq, same module in several search directories, relative search metadata, ~/.jq) are written to disk and compiled by the real library loader and (20%) the real command; every definition returns a label naming itself, so resolution is observable. Refuted when a call site resolves differently from the model, an invisible name compiles or a visible one fails, the outputs differ from the single-file inlined program, $d/$d::d differ from the data file, or modulemeta differs from the file structure.",
+   ref="4/C18"),
+ "C19": dict(cat="exploration", tech="ambient-variation differential, strace syscall monitor over a sentinel-bracketed window, instrumented-iterator/grant monitors, Go-callback vs jq-definition differential",
+   text="Option-less programs over every name/arity of `builtins` are run under two generated ambient states (environment, cwd, planted .jq files, stdin) and must be indistinguishable; capability terms must fail without their option; an strace session (deny-by-default scan of %file,%network,%process and reads of fd 0-2 between two sentinel syscalls, with a positive control session) watches 2000 (20000) programs; WithVariables/WithInputIter/WithEnvironLoader are checked with instrumented iterators and an independent model; 25k (500k) programs compare a Go callback (arity ranges 0..30, overlapping registrations, iterator and error behaviours) with the equivalent jq definition in 95 calling contexts. D7 (native arguments evaluated with path tracking on) is a known finding by call-site signature.",
+   ref="4/C19"),
 }
 
 checks = []
